@@ -256,6 +256,21 @@ Theorem C10_notify_first_refuted :
 Proof. exact notify_first_refuted. Qed.
 Print Assumptions C10_notify_first_refuted.
 
+(* ---------------------------------------------------------------- the relaunch of a finished job *)
+Theorem C10_relaunch_of_finished_job_marks_failed_refuted :
+  exists d k, Inv d /\ d_done d = true /\ d_failed d = None /\
+    d_failed (launch Fixed d OOk (Some (STerm, k, CTry))) = Some 1%Z /\
+    d_done (launch Fixed d OOk (Some (STerm, k, CTry))) = true.
+Proof. exact relaunch_of_finished_job_marks_failed_refuted. Qed.
+Print Assumptions C10_relaunch_of_finished_job_marks_failed_refuted.
+
+(* repaired handler (fixes/C10-5.diff): a launch that finds the success marker, however it dies, leaves the
+   failure marker as it found it (in particular absent)                                                    *)
+Theorem C10_relaunch_of_finished_job_keeps_failed : forall d o dth, d_done d = true ->
+  d_failed (launch Guarded d o dth) = d_failed d.
+Proof. exact relaunch_of_finished_job_keeps_failed. Qed.
+Print Assumptions C10_relaunch_of_finished_job_keeps_failed.
+
 (* record of the defect of the pinned commit: the literal runner keeps the pid file after a success *)
 Theorem C10_pid_left_on_success_refuted :
   exists d o, Inv d /\ success o = true /\ d_pid (launch Prefix d o None) = true.
